@@ -23,6 +23,10 @@ type restoreX struct {
 	snap    map[types.Object]cursorSnap
 	nAdv    int
 	pending map[types.Object][]Event // position stores of a not-yet-applied `to`
+	// closures: locals bound once to a function literal without results; a call statement of one
+	// is its body with the parameters standing for the arguments
+	closures map[types.Object]*ast.FuncLit
+	inlining int
 }
 
 type cursorSnap struct {
@@ -122,11 +126,52 @@ func (x *restoreX) stmt(s ast.Stmt, g gctx) {
 	c := x.c
 	switch s := s.(type) {
 	case *ast.AssignStmt:
+		// f := func(a, b T) { … } — remembered, inlined at its call statements
+		if s.Tok == token.DEFINE && len(s.Lhs) == 1 && len(s.Rhs) == 1 {
+			if fl, ok := s.Rhs[0].(*ast.FuncLit); ok && (fl.Type.Results == nil || len(fl.Type.Results.List) == 0) {
+				if id, ok := s.Lhs[0].(*ast.Ident); ok && c.Info.Defs[id] != nil {
+					if x.closures == nil {
+						x.closures = map[types.Object]*ast.FuncLit{}
+					}
+					x.closures[c.Info.Defs[id]] = fl
+					return
+				}
+			}
+		}
 		x.assign(s, g)
 	case *ast.ExprStmt:
 		if call, ok := s.X.(*ast.CallExpr); ok {
 			if x.call(call, g) {
 				return
+			}
+			if id, ok := call.Fun.(*ast.Ident); ok && x.inlining < 3 && !call.Ellipsis.IsValid() {
+				if fl := x.closures[c.Info.Uses[id]]; fl != nil {
+					var params []types.Object
+					for _, p := range fl.Type.Params.List {
+						for _, nm := range p.Names {
+							params = append(params, c.Info.Defs[nm])
+						}
+					}
+					if len(params) == len(call.Args) {
+						if c.Subst == nil {
+							c.Subst = map[types.Object]ast.Expr{}
+						}
+						for i, p := range params {
+							if p != nil {
+								c.Subst[p] = call.Args[i]
+							}
+						}
+						x.inlining++
+						x.stmts(fl.Body.List, g)
+						x.inlining--
+						for _, p := range params {
+							if p != nil {
+								delete(c.Subst, p)
+							}
+						}
+						return
+					}
+				}
 			}
 		}
 		// a small same-package helper that only registers nodes in the maps is its body
@@ -524,7 +569,7 @@ func (x *restoreX) conversion(e ast.Expr) (Event, bool) {
 			ev.Src = p
 		}
 		for i := 0; i < 3; i++ {
-			if sl, ok := StringLit(call.Args[1+i]); ok {
+			if sl, ok := c.StringLitS(call.Args[1+i]); ok {
 				ev.Lit[i] = sl
 			} else {
 				ev.Lit[i] = "«" + c.ExprStr(call.Args[1+i]) + "»"
@@ -553,7 +598,7 @@ func (x *restoreX) call(call *ast.CallExpr, g gctx) bool {
 	fn := c.Callee(call)
 	switch {
 	case IsMethod(fn, load.PkgDecorator, "FileRestorer", "applySpace") && len(call.Args) == 3:
-		name, _ := StringLit(call.Args[1])
+		name, _ := c.StringLitS(call.Args[1])
 		ev := Event{Kind: KSpace, Name: name, NodeArg: x.operand(call.Args[0])}
 		if p, ok := c.Path(call.Args[2], x.n); ok {
 			ev.Src = p
@@ -563,7 +608,7 @@ func (x *restoreX) call(call *ast.CallExpr, g gctx) bool {
 		x.emit(ev, g, call.Pos())
 		return true
 	case IsMethod(fn, load.PkgDecorator, "FileRestorer", "applyDecorations") && len(call.Args) == 4:
-		name, ok := StringLit(call.Args[1])
+		name, ok := c.StringLitS(call.Args[1])
 		if !ok {
 			name = "«" + c.ExprStr(call.Args[1]) + "»"
 		}
